@@ -195,7 +195,8 @@ T["T6"] = (doc(
 
 
 def bundled(name):
-    return open(f"/repo/tests/test_data/{name}", "rb").read()
+    import os
+    return open(os.environ.get("VERIF_REPO", "/repo") + f"/tests/test_data/{name}", "rb").read()
 
 
 def get(name):
